@@ -6,7 +6,9 @@ require (
 	github.com/Knetic/govaluate v3.0.1-0.20171022003610-9aa49832a739+incompatible
 	github.com/bytecodealliance/wasmtime-go v0.37.0
 	github.com/cbergoon/merkletree v0.2.0
+	github.com/coreos/etcd v3.3.18+incompatible
 	github.com/ethereum/go-ethereum v1.10.8
+	github.com/libp2p/go-libp2p-core v0.5.6
 	github.com/meshplus/bitxhub v0.0.0
 	github.com/meshplus/bitxhub-core v1.28.1-0.20230411032641-11245b4adfc5
 	github.com/meshplus/bitxhub-kit v1.28.0
